@@ -22,6 +22,7 @@ RULE = ("names from a metacharacter-biased generator (double quotes single / dou
 ASSUMPTIONS = ["MemoryPathIO back end (names are opaque strings there; a real file system adds its own restrictions)",
                "utf-8 on both sides"]
 REQUIRED_MONITORS = ["steps_checked", "pwd_roundtrip", "listing_names"]
+ANCHOR_FUNCTIONS = ['server.py:Server.pwd', 'client.py:BaseClient.parse_directory_response', 'server.py:Server.parse_command']
 EXHAUSTIVE = {"quick": False, "thorough": False}
 
 PIECES = ['"', '""', '"""', " ", "  ", ";", "=", "Type=dir;", "Type=file;Size=1;", " -> ", "->", "-", "--", "\\", "\\\\", "%", "%20", "%s", "\t",
